@@ -43,11 +43,19 @@ SeqsUpTo(S, n) == UNION { [1..k -> S] : k \in 0..n }
 Layer(o, i) == [kind |-> o[1], payload |-> Payload(o[1], o[2]), ann |-> Ann(o[1], (i % 2 = 1) = o[2])]
 Ev(s, name) == [ev |-> "artifact", in |-> [dir |-> Dir, name |-> name, foreign |-> FALSE, artifact_type |-> "",
                  layers |-> [ i \in DOMAIN s |-> Layer(s[i], i) ]]]
+\* time annotations are returned exactly as set, whatever their sub-second precision
+Times == {"2024-05-01T12:30:45Z", "2024-05-01T12:30:45.250Z", "2024-05-01T12:30:45.000123Z", "2024-05-01T12:30:45.123456789Z", "1999-12-31T23:59:59.999999999Z"}
+TimeEv(t, u) == [ev |-> "artifact", in |-> [dir |-> Dir, name |-> "times", foreign |-> FALSE, artifact_type |-> "",
+   layers |-> << [kind |-> "instance", payload |-> SmallInst, ann |-> [FullAnnI EXCEPT !.created = <<t>>]],
+                 [kind |-> "solution", payload |-> Payload("solution", TRUE), ann |-> [FullAnnS EXCEPT !.start = <<t>>, !.end = <<u>>]],
+                 [kind |-> "parametric", payload |-> SmallPInst, ann |-> [FullAnnI EXCEPT !.created = <<u>>]],
+                 [kind |-> "sample_set", payload |-> SmallSS, ann |-> [FullAnnS EXCEPT !.start = <<u>>, !.end = <<t>>]] >>]]
 Step(A) == phase = 0 /\ phase' = 1 /\ A
 Init == vec = <<>> /\ phase = 0
 Next == Step( \/ \E s \in SeqsUpTo(Opts, MaxFull) : vec' = Ev(s, "full")
               \/ \E s \in UNION { [1..k -> Kinds] : k \in (MaxFull + 1)..MaxKindsOnly } :
                     vec' = Ev([ i \in DOMAIN s |-> <<s[i], i % 3 = 0>> ], "kinds")
+              \/ \E t \in Times, u \in Times : vec' = TimeEv(t, u)
               \/ \E ty \in {"application/vnd.oci.empty.v1+json", "application/org.other.v1.artifact"} :
                     vec' = [ev |-> "artifact", in |-> [dir |-> Dir, name |-> "foreign", foreign |-> TRUE, artifact_type |-> ty, layers |-> <<>>]] )
 Emit == phase = 1 => PrintT("VEC " \o ToJson(vec))
